@@ -213,6 +213,60 @@ def body(case, stats):
         stats.nontriv(jhash([spec["nodes"], spec["phases"]]), sample=S.summarize(spec))
 
 
+@st.composite
+def histories(draw):
+    """An edit history (list of concrete operations) generated against the real system so
+    that later operations refer to components that exist."""
+    from vlib import machine as M
+    from vlib.runner import Stats
+
+    d = M.Driver(set(), Stats())
+    comp = {"name": "Src0", "kind": "Source", "params": M.draw_params(draw, "Source"),
+            "limits": None}
+    d.start(comp, "", draw(st.sampled_from(["", "VIN"])))
+    n = draw(st.integers(4, 18))
+    for k in range(n):
+        op = M.draw_op(draw, d.model, k + 1)
+        if d.step(op) == "abort":
+            break
+    return d.ops
+
+
+def body_history(ops, stats):
+    """System.from_file(save(S)) for a system S reached through an edit history."""
+    from sysloss.system import System
+    from vlib import machine as M
+    from vlib.runner import Stats
+
+    d = M.replay_ops(ops, set(), Stats())
+    if not d.in_sync() or d.undefined:
+        stats.cls("history_out_of_model")
+        return
+    model = d.model
+    spec = {"name": "Sys", "phases": model["phases"], "nodes": M.topo_nodes(model)}
+    with tempfile.TemporaryDirectory(prefix="vc12_") as tmp:
+        f1 = os.path.join(tmp, "a.json")
+        with warnings.catch_warnings():
+            warnings.simplefilter("ignore")
+            try:
+                d.sys.save(f1)
+            except Exception as e:
+                raise Fail("history.save_raises", "save() after {} raised {}".format(
+                    [M.op_text(o) for o in ops][-3:], e))
+            try:
+                sys2 = System.from_file(f1)
+            except Exception as e:
+                raise Fail("history.reload.exception." + type(e).__name__,
+                           "from_file(save(S)) raised {}: {}; history tail {}".format(
+                               type(e).__name__, e, [M.op_text(o) for o in ops][-3:]))
+        ra, rb = reports(d.sys, spec, stats, "orig"), reports(sys2, spec, stats, "reload")
+        compare_reports(ra, rb, spec, "history.roundtrip")
+    stats.cls("history_roundtrip")
+    kinds = {n["kind"] for n in spec["nodes"]}
+    if len(spec["nodes"]) >= 4 and len(kinds) >= 3:
+        stats.nontriv(jhash(ops), sample=[M.op_text(o) for o in ops][:12])
+
+
 def _case(o):
     return st.fixed_dictionaries({
         "spec": G.systems(o),
@@ -238,4 +292,6 @@ def streams(tier, avoid):
                reduce=_reduce),
         Stream("phases", body, strategy=_case(o2), n={"quick": 300, "thorough": 2500},
                reduce=_reduce),
+        Stream("after_history", body_history, strategy=histories(),
+               n={"quick": 80, "thorough": 800}),
     ]
